@@ -192,7 +192,7 @@ func sample(r *rng, xs []int, k int) []int {
 // chooseFlips returns bit indexes (byte*8+bit) to flip.
 func chooseFlips(buf []byte, root *tw.Node, must []span, seed uint64, budget int) []int {
 	nbits := len(buf) * 8
-	if nbits <= budget {
+	if nbits <= budget || len(buf) <= 100 { // small packets: every bit, in every tier
 		out := make([]int, nbits)
 		for i := range out {
 			out[i] = i
